@@ -410,6 +410,8 @@ def audit_db(r: Recorder, app) -> dict:
             for c in cols:
                 dangling += q(f"SELECT COUNT(*) FROM {tbl} x WHERE x.{c} NOT IN (SELECT unique_id FROM agents)")[0][0]
         out["dangling"] = int(dangling)
+        out["dup_rows"] = int(sum(n - 1 for (n,) in q("SELECT COUNT(*) FROM detected_maneuvers GROUP BY julian_date, target_id HAVING COUNT(*) > 1"))
+                              + sum(n - 1 for (n,) in q("SELECT COUNT(*) FROM filterstep GROUP BY julian_date, target_id HAVING COUNT(*) > 1")))
         out["n_maneuver_rows"] = int(q("SELECT COUNT(*) FROM detected_maneuvers")[0][0])
         out["n_filterstep_rows"] = int(q("SELECT COUNT(*) FROM filterstep")[0][0])
         # read-back: the rows of the current epoch equal the states the simulation holds (exact float equality)
